@@ -407,7 +407,7 @@ def parse_stmt(line):
     return ('assign', pl, parse_rvalue(r[2:]))
 
 
-HDR_CONST = re.compile(r'^(const|static(?: mut)?) (.*?): (.*) = \{$')
+HDR_CONST = re.compile(r'^(const|static(?: mut)?) ((?:<impl at [^>]*>|[^:<]|:(?! )|<)*?): (.*) = \{$')
 
 
 def parse_mir(text):
@@ -440,6 +440,13 @@ def parse_mir(text):
                 f.ret = m.group(3)
                 f.kind = 'const'
         if f is None:
+            mm = re.match(r'^const ((?:<impl at [^>]*>|[^:<]|:(?! )|<)*?): (.*?) = const (.*);$', l.rstrip())
+            if mm:   # one-line constant item
+                f = Fn(mm.group(1), l)
+                f.ret = mm.group(2)
+                f.kind = 'const'
+                f.raw_blocks[0] = [f'_0 = const {mm.group(3)};', 'return;']
+                fns.append(f)
             i += 1
             continue
         i += 1
